@@ -3839,3 +3839,235 @@ pub fn c19_kademlia_message(nd: &mut Nondet) {
         _ => check("c19k.own-encoding-decodes-to-the-same-kind", false),
     }
 }
+
+// ------------------------------------------------------------------------------------------ C11 notification protocol of one endpoint
+use litep2p::protocol::notification::{NotificationEvent, ValidationResult};
+
+/// C11: the real `NotificationProtocol::next_event()` loop with the real `NotificationHandle` on the user's side, a
+/// transport fed by the harness and remotes scripted through their substreams. The user-visible event grammar per
+/// peer is checked after every step: opened/closed alternate, no open-failure while open, notifications only while
+/// open, an inbound stream opens only after acceptance, answers never outnumber requests, and a lost connection ends
+/// an open stream.
+pub fn c11_notification_protocol(nd: &mut Nondet) {
+    let mut manager = TransportManagerBuilder::new().build();
+    let auto_accept = nd.bool("auto_accept");
+    let (mut kernel, mut handle) = nk::new_protocol_kernel(&mut manager, auto_accept, vec![0xAA]);
+    let peer = nd.peer_id_fixed(1);
+    let waker = noop_waker();
+    let mut cx = Context::from_waker(&waker);
+    let mut connection: Option<ConnectionId> = None;
+    let mut next_connection = 0usize;
+    let mut next_substream = 0usize;
+
+    let mut open = false;                 // as the user sees it
+    let mut requests = 0usize;            // open requests the user made
+    let mut answers = 0usize;             // outbound opens + open failures the user saw
+    let mut accepts = 0usize;             // validations the user answered with Accept
+    let mut clean_requests = 0usize;      // requests made while the peer was not connected, or connected with nothing in progress
+    let mut outcomes = 0usize;            // open failures + streams opened (either direction)
+    let mut validation_pending = false;   // the user was asked to validate and has not answered
+    let mut accepted = false;             // the user accepted the current inbound substream
+    let mut requested_since_closed = false;
+    let mut closing = false;              // the user asked to close the open stream and has not yet seen the closed event
+
+    let steps = param("steps", 4);
+    // `warm` leading steps are fixed: connect, the user asks for a stream, the remote answers our handshake, the remote opens
+    // its own substream and handshakes (histories that start from a stream that is open or about to open)
+    let warm = param("warm", 0);
+    const WARM: [u64; 4] = [0, 2, 4, 5];
+    let total = warm + steps + 2;         // the last two steps settle: the connection is lost, then everything is polled
+    for step in 0..total {
+        let forced = step < warm;
+        let settle = step >= warm + steps;
+        if step == warm + steps && connection.is_some() && param("probe", 1) == 1 {
+            // ---- before the connection is lost: everything the connection still owes is answered (the substream requests
+            // fail), and then the peer must be usable - a request to a connected peer with nothing in progress is acted upon:
+            // the protocol asks the connection for a substream or answers at once
+            while let Some((_, sid)) = kernel.next_open_request() { let _ = kernel.outbound_substream_failed(sid); }
+            let mut rounds = 0;
+            while kernel.poll_protocol(&mut cx) == nk::Polled::Handled { rounds += 1; if rounds > 12 { check("c11.protocol-quiesces", false); return; } }
+            let mut sane = true;
+            loop {
+                match Pin::new(&mut handle).poll_next(&mut cx) {
+                    Poll::Ready(Some(NotificationEvent::NotificationStreamClosed { .. })) => { check("c11.opened-and-closed-alternate", open); open = false; closing = false; accepted = false; requested_since_closed = false; }
+                    Poll::Ready(Some(NotificationEvent::NotificationStreamOpened { .. })) => { sane = false; }
+                    Poll::Ready(Some(NotificationEvent::ValidateSubstream { .. })) => { validation_pending = true; }
+                    Poll::Ready(Some(NotificationEvent::NotificationStreamOpenFailure { .. })) => { check("c11.no-open-failure-while-the-stream-is-open", !open || closing); answers += 1; outcomes += 1; }
+                    Poll::Ready(Some(NotificationEvent::NotificationReceived { .. })) => { check("c11.notifications-only-while-open", open); }
+                    Poll::Ready(Some(_)) => {}
+                    _ => break,
+                }
+            }
+            if sane && kernel.peer_is_idle(&peer) && !open {
+                // nothing is in progress any more: every request that was made while nothing was in progress has its answer
+                check("c11.request-on-an-idle-peer-is-answered", outcomes >= clean_requests);
+                let mut fut = Box::pin(handle.open_substream(peer));
+                let asked = matches!(fut.as_mut().poll(&mut cx), Poll::Ready(Ok(())));
+                drop(fut);
+                if asked {
+                    cover("c11.probe");
+                    requests += 1;
+                    requested_since_closed = true;
+                    let mut rounds = 0;
+                    while kernel.poll_protocol(&mut cx) == nk::Polled::Handled { rounds += 1; if rounds > 12 { check("c11.protocol-quiesces", false); return; } }
+                    let mut answered = false;
+                    loop {
+                        match Pin::new(&mut handle).poll_next(&mut cx) {
+                            Poll::Ready(Some(NotificationEvent::NotificationStreamOpenFailure { .. })) => { answered = true; answers += 1; }
+                            Poll::Ready(Some(_)) => {}
+                            _ => break,
+                        }
+                    }
+                    let requested = kernel.next_open_request().is_some();
+                    check("c11.request-on-an-idle-connected-peer-is-acted-upon", answered || requested);
+                }
+            }
+        }
+        let event = if forced { WARM[step as usize] } else if settle { if step == warm + steps { 1 } else { 7 } } else { nd.choose("event", 8) };
+        match event {
+            0 => {
+                if connection.is_some() { assume(false); }
+                let id = ConnectionId::from(next_connection);
+                next_connection += 1;
+                check("c11.transport-event-is-queued", kernel.connection_established(peer, id));
+                connection = Some(id);
+                cover("c11.connected");
+            }
+            1 => {
+                match connection.take() {
+                    Some(id) => { check("c11.transport-event-is-queued", kernel.connection_closed(peer, id)); cover("c11.disconnected"); }
+                    None => { if !settle { assume(false); } }
+                }
+            }
+            2 => {
+                // the user asks for a stream
+                let mut fut = Box::pin(handle.open_substream(peer));
+                match fut.as_mut().poll(&mut cx) {
+                    Poll::Ready(Ok(())) => {
+                        requests += 1;
+                        requested_since_closed = true;
+                        if connection.is_none() || (kernel.peer_is_idle(&peer) && !open) { clean_requests += 1; }
+                        cover("c11.user.open");
+                    }
+                    Poll::Ready(Err(_)) => { cover("c11.user.open-refused"); check("c11.open-is-refused-locally-only-while-open", open); }
+                    Poll::Pending => { check("c11.command-channel-has-room", false); return; }
+                }
+            }
+            3 => {
+                let mut fut = Box::pin(handle.close_substream(peer));
+                match fut.as_mut().poll(&mut cx) { Poll::Ready(()) => { cover("c11.user.close"); if open { closing = true; } } Poll::Pending => { check("c11.command-channel-has-room", false); return; } }
+            }
+            4 => {
+                // the connection task answers the protocol's oldest substream request
+                match kernel.next_open_request() {
+                    None => assume(false),
+                    Some((conn, sid)) => {
+                        match if forced { 1 } else { nd.choose("outbound", 3) } {
+                            0 => { check("c11.transport-event-is-queued", kernel.outbound_substream_failed(sid)); cover("c11.outbound.failed"); }
+                            k => {
+                                // negotiated: the remote answers our handshake with its own, or closes the substream
+                                let incoming: Vec<u8> = if k == 1 { vec![1, 0xBB] } else { Vec::new() };
+                                let mut io = ScriptedIo::new(nd, incoming);
+                                io.idle_at_end = k == 1;
+                                let substream = Substream::new_verif(peer, SubstreamId::from(1000 + next_substream), Box::new(io), ProtocolCodec::UnsignedVarint(Some(16)));
+                                next_substream += 1;
+                                if !kernel.outbound_substream_opened(peer, conn, sid, substream) { assume(false); }
+                                cover("c11.outbound.opened");
+                            }
+                        }
+                    }
+                }
+            }
+            5 => {
+                // the remote opens a substream and sends its handshake (or closes right away)
+                let conn = match connection { Some(c) => c, None => { assume(false); return; } };
+                // the remote: closes at once / sends its handshake and stays / sends its handshake, one notification, and closes
+                // (3: handshake, one notification, and stays)
+                let remote = if forced { 1 + nd.choose("warm_remote", 3) } else { nd.choose("remote_inbound", 4) };
+                let incoming: Vec<u8> = match remote { 0 => Vec::new(), 1 => vec![1, 0xCC], _ => vec![1, 0xCC, 1, 0x77] };
+                let mut io = ScriptedIo::new(nd, incoming);
+                io.idle_at_end = remote == 1 || remote == 3;
+                let substream = Substream::new_verif(peer, SubstreamId::from(2000 + next_substream), Box::new(io), ProtocolCodec::UnsignedVarint(Some(16)));
+                next_substream += 1;
+                if !kernel.inbound_substream_opened(peer, conn, substream) { assume(false); }
+                cover("c11.inbound.opened");
+            }
+            6 => {
+                if !validation_pending { assume(false); }
+                validation_pending = false;
+                if nd.bool("accept") { accepted = true; accepts += 1; handle.send_validation_result(peer, ValidationResult::Accept); cover("c11.user.accept"); }
+                else {
+                    // rejecting the peer's substream also revokes the user's own pending request for that peer (by design, no event)
+                    handle.send_validation_result(peer, ValidationResult::Reject);
+                    if outcomes < clean_requests { outcomes = clean_requests; }
+                    cover("c11.user.reject");
+                }
+            }
+            _ => { let _ = kernel.poll_tasks(&mut cx); }
+        }
+
+        // ---- the protocol task runs until it has nothing to do, then the stream tasks, then the user reads its events
+        let mut rounds = 0;
+        loop {
+            rounds += 1;
+            if rounds > 12 { check("c11.protocol-quiesces", false); return; }
+            match kernel.poll_protocol(&mut cx) {
+                nk::Polled::Pending => break,
+                nk::Polled::Handled => {}
+                nk::Polled::Exited => { check("c11.protocol-keeps-serving", false); return; }
+            }
+        }
+        if settle { let _ = kernel.poll_tasks(&mut cx); }
+        let mut reads = 0;
+        loop {
+            reads += 1;
+            if reads > 12 { break; }
+            match Pin::new(&mut handle).poll_next(&mut cx) {
+                Poll::Pending => break,
+                Poll::Ready(None) => { check("c11.handle-stays-connected-to-the-protocol", false); return; }
+                Poll::Ready(Some(event)) => match event {
+                    NotificationEvent::ValidateSubstream { peer: p, .. } => {
+                        cover("c11.event.validate");
+                        check("c11.event-names-the-peer", p == peer);
+                        validation_pending = true;
+                        accepted = false;
+                    }
+                    NotificationEvent::NotificationStreamOpened { peer: p, direction, .. } => {
+                        cover("c11.event.opened");
+                        check("c11.event-names-the-peer", p == peer);
+                        check("c11.opened-and-closed-alternate", !open);
+                        open = true;
+                        // the stream exists because the user asked for it or accepted the remote's request
+                        check("c11.stream-opens-only-after-a-request-or-an-acceptance", requested_since_closed || accepted);
+                        if matches!(direction, litep2p::protocol::notification::Direction::Outbound) { answers += 1; }
+                        outcomes += 1;
+                    }
+                    NotificationEvent::NotificationStreamClosed { peer: p } => {
+                        cover("c11.event.closed");
+                        check("c11.event-names-the-peer", p == peer);
+                        check("c11.opened-and-closed-alternate", open);
+                        open = false;
+                        closing = false;
+                        accepted = false;
+                        requested_since_closed = false;
+                    }
+                    NotificationEvent::NotificationStreamOpenFailure { peer: p, .. } => {
+                        cover("c11.event.open-failure");
+                        check("c11.event-names-the-peer", p == peer);
+                        // (a stream the user itself is closing counts as closed here: its closed event comes from the stream's own
+                        // task and may be overtaken by the answer to a later request)
+                        check("c11.no-open-failure-while-the-stream-is-open", !open || closing);
+                        answers += 1;
+                        outcomes += 1;
+                    }
+                    NotificationEvent::NotificationReceived { .. } => { cover("c11.event.notification"); check("c11.notifications-only-while-open", open); }
+                },
+            }
+        }
+        // every outbound open and every open failure answers something the user did: a request, or an acceptance (after which
+        // the protocol opens its own substream, which may still fail)
+        check("c11.answers-never-outnumber-requests-and-acceptances", answers <= requests + accepts);
+    }
+    // ---- after the connection was lost and everything was polled
+    check("c11.lost-connection-ends-the-open-stream", !open);
+}
